@@ -201,6 +201,7 @@ func (x *Exec) Verify() {
 		fr.env[prm] = v
 		fr.names[prm.Name()] = v
 		x.params[prm.Name()] = v
+		x.params[prm.Name()+"0"] = v
 		x.paramOrd = append(x.paramOrd, prm.Name())
 		if i == 0 && fn.Signature.Recv() != nil && v.K == KScalar {
 			if _, ok := prm.Type().Underlying().(*types.Pointer); ok {
@@ -285,7 +286,7 @@ func (x *Exec) assumeAxioms(p *Path) {
 				x.errorf("%s:%d: axiom: %v", c.File, c.Line, err)
 				continue
 			}
-			p.assume(s)
+			x.assumeOnce(p, s)
 			x.e.note("axiom " + c.Label + ": " + c.Src)
 		}
 	}
@@ -301,9 +302,18 @@ func (x *Exec) assumeAxioms(p *Path) {
 				x.errorf("%s:%d: lemma: %v", c.File, c.Line, err)
 				continue
 			}
-			p.assume(s)
+			x.assumeOnce(p, s)
 		}
 	}
+}
+
+func (x *Exec) assumeOnce(p *Path, s string) {
+	for _, a := range p.assumes {
+		if a == s {
+			return
+		}
+	}
+	p.assume(s)
 }
 
 func pkgOfFile(e *Engine, file string) string {
@@ -362,6 +372,7 @@ func (x *Exec) enterBlock(p *Path, b *ssa.BasicBlock, from *ssa.BasicBlock, k *C
 		backEdge := from != nil && l.Body[from] && fr.inLoop[b]
 		ctx := x.evalCtx(p, x.ctxVars(p))
 		ctx.frame = fr
+		ctx.preferFrame = true
 		if !backEdge {
 			// entry: check invariants, havoc, assume invariants
 			for _, c := range lc.Invariants {
@@ -373,8 +384,10 @@ func (x *Exec) enterBlock(p *Path, b *ssa.BasicBlock, from *ssa.BasicBlock, k *C
 				x.oblige(p, fmt.Sprintf("loop%d:entry", l.Ord), c.Label, s, c.Props, c.Src)
 			}
 			x.havocLoop(p, fr, l)
+			x.assumeAxioms(p)
 			ctx = x.evalCtx(p, x.ctxVars(p))
 			ctx.frame = fr
+			ctx.preferFrame = true
 			for _, c := range lc.Invariants {
 				s, err := ctx.EvalBool(c.E)
 				if err == nil {
@@ -1253,6 +1266,9 @@ func (x *Exec) step(p *Path, in ssa.Instruction) {
 			return
 		}
 		x.guardCheck(p, av.A, true, in)
+		if vv.K == KSlice && av.A.Kind == AField && vv.Off != "0" {
+			x.oblige(p, "model", "field_slice_offset0", eq(vv.Off, "0"), nil, "heap model: a slice stored in a struct field starts at offset 0 of its backing array")
+		}
 		if vv.K == KAddr && vv.A.Kind == ALocal {
 			p.escaped[vv.A.Cell] = true
 		}
@@ -1757,6 +1773,7 @@ func (x *Exec) checkExit(p *Path, res []Val, panicked bool) {
 		return
 	}
 	vars := x.withResults(fc, x.params, res)
+	x.assumeAxioms(p)
 	ctx := x.evalCtx(p, vars)
 	ctx.frame = p.frames[0]
 	clauses := fc.Ensures
